@@ -266,6 +266,9 @@ class Analysis(object):
                             fresh_globals[key] = True
                         else:
                             fresh_globals[key] = False
+                            if all(r.startswith("param:") for r in src):
+                                # a setter: the root becomes whatever the caller passes
+                                f.__dict__.setdefault("param_rebinds", {})[key] = (sorted(int(r[6:]) for r in src), n.lineno)
                     return
                 env[t.id] = set(src)        # strong update
             elif isinstance(t, (ast.Tuple, ast.List)):
@@ -463,12 +466,30 @@ class Analysis(object):
                     sites.append({"function": k, "line": ln, "what": desc, "kind": kind})
                 if root in f.rebinds:
                     rebinds.append({"function": k, "line": f.rebinds[root]})
+                # a call of a setter of this root with a fresh container
+                for n in ast.walk(f.node):
+                    if isinstance(n, ast.Call):
+                        fn = n.func
+                        name = fn.id if isinstance(fn, ast.Name) else fn.attr if isinstance(fn, ast.Attribute) else None
+                        for g in self.by_name.get(name, []):
+                            pr = getattr(g, "param_rebinds", {}).get(root)
+                            if pr:
+                                off = 1 if g.cls else 0
+                                for i in pr[0]:
+                                    j = i - off
+                                    if 0 <= j < len(n.args) and self.is_mutable_value(n.args[j]):
+                                        rebinds.append({"function": k, "line": n.lineno})
             verdict, why = None, ""
             if not sites:
                 verdict, why = "J1", "no mutation site reachable from main_with_args"
             elif rebinds and self.reset_before_use(root, rebinds, main):
                 verdict, why = "J2", "rebound to a fresh value on every run before use (%s)" % ", ".join(
                     "%s:%d" % (r["function"], r["line"]) for r in rebinds)
+            elif rebinds:
+                # the package has a statement that gives this root a fresh value, but a run does not reach it
+                # unconditionally before the root is used: what an earlier run (or an earlier failed run) left is read
+                verdict, why = "FAIL", "rebound to a fresh value only conditionally or after use (%s): content of an earlier " \
+                                       "run survives" % ", ".join("%s:%d" % (r["function"], r["line"]) for r in rebinds)
             elif all(s["kind"] in ("keyed-write", "nav", "const-element-write") for s in sites) and self.oblivious(root, sites) \
                     and self.whole_reads(root, reach):
                 verdict, why = "FAIL", "keyed writes only, but all keys are observed: " + "; ".join(
@@ -682,6 +703,13 @@ def impure_sources(repo):
                         bad.append({"file": fn, "line": n.lineno, "what": "import %s" % nm})
             if isinstance(n, ast.Attribute) and isinstance(n.value, ast.Name) and (n.value.id, n.attr) in banned_attrs:
                 bad.append({"file": fn, "line": n.lineno, "what": "%s.%s" % (n.value.id, n.attr)})
+            # the current working directory, read implicitly: abspath / realpath / expanduser, relpath without a start
+            if isinstance(n, ast.Call) and ast.unparse(n.func) in ("os.path.abspath", "os.path.realpath", "os.path.expanduser",
+                                                                 "os.path.expandvars", "os.chdir"):
+                bad.append({"file": fn, "line": n.lineno, "what": "%s (depends on the working directory / environment)" % ast.unparse(n.func)})
+            if isinstance(n, ast.Call) and ast.unparse(n.func) == "os.path.relpath" and len(n.args) < 2 \
+                    and not any(k.arg == "start" for k in n.keywords):
+                bad.append({"file": fn, "line": n.lineno, "what": "os.path.relpath without start (relative to the working directory)"})
             if isinstance(n, ast.Call) and isinstance(n.func, ast.Name) and n.func.id in ("id", "hash"):
                 bad.append({"file": fn, "line": n.lineno, "what": "%s() call" % n.func.id})
             if isinstance(n, (ast.For, ast.comprehension)):
